@@ -199,8 +199,26 @@ def s7_padding_and_payload_are_independent(ctx):
     ctx.floor("S7", "request-header decoders that skip padding behind the target address", 1, n)
 
 
+def s8_timestamp_tolerance_is_two_sided(ctx):
+    """S8: SIP022 accepts a message whose timestamp differs from the receiver's clock by at most 30 seconds *in either direction*; a receiver that
+    only tolerates stamps from the past refuses every conforming peer whose clock runs slightly ahead. C10's V1a window obligations for the
+    Shadowsocks-2022 window function re-evaluated (accept set = |now - ts| <= 30, symmetric)."""
+    from ..engine import Ctx
+    from . import c10
+    sub = Ctx(ctx.prog, "C10", ctx.tier)
+    c10.run(sub)
+    n = 0
+    for o in sub.obs:
+        if o.rule == "V1a" and "|ss2022:" in o.key and ("window" in o.key):
+            n += 1
+            parts = o.key.split("|")
+            ctx.ob("S8", parts[1], parts[2], o.where, o.ok, o.detail)
+    ctx.floor("S8", "2022 timestamp window obligations (C10 V1a)", 1, n)
+
+
 def run(ctx):
     s7_padding_and_payload_are_independent(ctx)
+    s8_timestamp_tolerance_is_two_sided(ctx)
     prog = ctx.prog
     spec = json.load(open(os.path.join(VERIF, "tables", "spec-constants.json")))
     bodies = [b for b in prog.prod_bodies() if "::_" not in b.defp]
